@@ -306,7 +306,7 @@ class Axis(GetSetDelAttrMixin, AbstractAxis):
 
         else:
             # no ordering, just concatenate and drop doublons
-            not_in_self = np.in1d(other.values, self.values, invert=True)
+            not_in_self = np.isin(other.values, self.values, invert=True)
             joined = np.concatenate((self.values, other.values[not_in_self]))
 
         ax = Axis(joined, self.name)
@@ -328,10 +328,10 @@ class Axis(GetSetDelAttrMixin, AbstractAxis):
 
         # numpy.intersect1d would be nicer but it would also sort the arrays...
         # restrict other with values in self
-        in_self = np.in1d(other.values, self.values)
+        in_self = np.isin(other.values, self.values)
         oth = other.values[in_self]
         # restrict self values in restricted other
-        in_other = np.in1d(self.values, oth)
+        in_other = np.isin(self.values, oth)
         newval = self.values[in_other]
         
         ax = Axis(newval, self.name)
